@@ -3,8 +3,9 @@
    broadcast_event, announce_update, make_update), the announce path of frappy/modulebase.py (Module.announceUpdate)
    and the connection life cycle of frappy/protocol/interface/handler.py (RequestHandler.setup / handle / finish),
    as a transition system whose atomic steps end exactly at the synchronisation points of the implementation:
-   acquire of Dispatcher._lock, acquire of Module.updateLock, entry of make_update, send_reply of a connection,
-   receive of a connection.  No proofs in this file. *)
+   acquire of Dispatcher._lock, acquire of Module.updateLock (by driver threads in announceUpdate and, since the
+   repair c1c8ab8, by handle_activate around the initial updates of each module), entry of make_update, send_reply
+   of a connection, receive of a connection.  No proofs in this file. *)
 From Coq Require Import List Arith Bool.
 Import ListNotations.
 
@@ -58,8 +59,13 @@ Inductive cpc :=
 | CStart
 | CRecv                                             (* receive *)
 | CAcq (r : req)                                    (* acquire of Dispatcher._lock in handle_request *)
-| CBuild (sc : scope) (todo : list pid)             (* handle_activate: entry of make_update for the head of todo *)
-| CSendU (sc : scope) (p : pid) (v : nat) (todo : list pid)   (* handle_activate: send_reply of a built update *)
+| CAcqU (sc : scope) (groups : list (nat * list nat))
+    (* handle_activate: acquire of the updateLock of the module of the head group; a group = (module, indices of
+       the parameters whose initial update is still to be sent) *)
+| CBuild (sc : scope) (m : nat) (todo : list nat) (groups : list (nat * list nat))
+    (* updateLock of m held: entry of make_update for parameter (m, head of todo) *)
+| CSendU (sc : scope) (m : nat) (i : nat) (v : nat) (todo : list nat) (groups : list (nat * list nat))
+    (* updateLock of m held: send_reply of the built update of (m, i) *)
 | CSendR (r : reply)                                (* handle: send_reply of the reply, lock released *)
 | CDone.
 
@@ -81,7 +87,7 @@ Record state := {
   cache : pid -> nat;                (* Parameter.value of every parameter *)
   logs : conn -> list entry;
   dlock : option conn;               (* owner of Dispatcher._lock *)
-  ulock : nat -> option nat;         (* owner of Module.updateLock, per module *)
+  ulock : nat -> option tid;         (* owner of Module.updateLock, per module *)
   cth : conn -> cthread;
   uth : nat -> uthread;
   bcasts : list (pid * nat * list conn);   (* ghost: completed broadcasts (parameter, value, selected listeners) *)
@@ -119,18 +125,23 @@ Definition mod_exported (nd : node) (m : nat) : bool :=
 Definition exported (nd : node) (p : pid) : bool :=
   match nth_error nd (fst p) with Some (e, ps) => e && nth (snd p) ps false | None => false end.
 (* the exported parameters of a module in the order of its accessibles (empty for a module that is not exported) *)
-Definition params_of (nd : node) (m : nat) : list pid :=
+Definition pidx_of (nd : node) (m : nat) : list nat :=
   match nth_error nd m with
-  | Some (true, ps) => map (fun i => (m, i)) (filter (fun i => nth i ps false) (seq 0 (length ps)))
+  | Some (true, ps) => filter (fun i => nth i ps false) (seq 0 (length ps))
   | _ => []
   end.
-(* what handle_activate sends, in its order *)
-Definition snapshot_list (nd : node) (sc : scope) : list pid :=
+Definition params_of (nd : node) (m : nat) : list pid := map (fun i => (m, i)) (pidx_of nd m).
+(* what handle_activate sends, in its order: one group per module of secnode.export (whole node), the module, or
+   the single parameter; every group is sent under the updateLock of its module *)
+Definition snapshot_groups (nd : node) (sc : scope) : list (nat * list nat) :=
   match sc with
-  | SG => flat_map (params_of nd) (seq 0 (length nd))
-  | SM m => params_of nd m
-  | SP m p => [(m, p)]
+  | SG => map (fun m => (m, pidx_of nd m)) (filter (mod_exported nd) (seq 0 (length nd)))
+  | SM m => [(m, pidx_of nd m)]
+  | SP m p => [(m, [p])]
   end.
+Definition group_pids (g : nat * list nat) : list pid := map (fun i => (fst g, i)) (snd g).
+Definition flat (groups : list (nat * list nat)) : list pid := flat_map group_pids groups.
+Definition snapshot_list (nd : node) (sc : scope) : list pid := flat (snapshot_groups nd sc).
 
 (* the checks of handle_activate on the specifier: None = accepted, Some e = error reply *)
 Definition act_error (nd : node) (sc : scope) : option nat :=
@@ -175,10 +186,11 @@ Definition reset (s : state) (c : conn) : state :=
   set_actv (set_subs s (filter (fun e => negb (Nat.eqb (fst e) c)) (subs s))) (remc c (actv s)).
 
 (* ---- one step of a connection thread *)
-Definition after_snapshot (s : state) (c : conn) (sc : scope) (todo : list pid) : state :=
-  match todo with
+(* go on to the next module of the snapshot, or leave the handler (release Dispatcher._lock) with the reply *)
+Definition enter_groups (s : state) (c : conn) (sc : scope) (groups : list (nat * list nat)) : state :=
+  match groups with
   | [] => set_cpc (set_dlock s None) c (CSendR (RpActive sc))
-  | _ => set_cpc s c (CBuild sc todo)
+  | _ => set_cpc s c (CAcqU sc groups)
   end.
 
 Definition handle (nd : node) (s : state) (c : conn) (r : req) : state :=
@@ -191,7 +203,7 @@ Definition handle (nd : node) (s : state) (c : conn) (r : req) : state :=
       if data then set_cpc s c (CSendR (RpErr 0))
       else match act_error nd sc with
            | Some e => set_cpc s c (CSendR (RpErr e))
-           | None => after_snapshot (set_dlock (register s c sc) (Some c)) c sc (snapshot_list nd sc)
+           | None => enter_groups (set_dlock (register s c sc) (Some c)) c sc (snapshot_groups nd sc)
            end
   | RClose => set_cpc s c (CSendR (RpErr 0))      (* not a request: never reaches the dispatcher *)
   end.
@@ -203,6 +215,8 @@ Definition cenabled (s : state) (c : conn) : bool :=
   match c_pc (cth s c) with
   | CRecv => match c_script (cth s c) with [] => false | _ => true end
   | CAcq _ => match dlock s with None => true | Some _ => false end
+  | CAcqU _ ((m, _) :: _) => match ulock s m with None => true | Some _ => false end
+  | CAcqU _ [] => false
   | CDone => false
   | _ => true
   end.
@@ -218,9 +232,14 @@ Definition cstep_conn (nd : node) (s : state) (c : conn) : state :=
       | r :: _ => pop_script (log_add s c (EReq r)) c (CAcq r)
       end
   | CAcq r => handle nd s c r
-  | CBuild sc [] => s
-  | CBuild sc (p :: todo) => set_cpc s c (CSendU sc p (cache s p) todo)
-  | CSendU sc p v todo => after_snapshot (log_add s c (EUpd p v)) c sc todo
+  | CAcqU sc [] => s
+  | CAcqU sc ((m, []) :: rest) => enter_groups s c sc rest          (* nothing to send: acquired and released *)
+  | CAcqU sc ((m, todo) :: rest) => set_cpc (set_ulock s (upd (ulock s) m (Some (TC c)))) c (CBuild sc m todo rest)
+  | CBuild sc m [] rest => s
+  | CBuild sc m (i :: todo) rest => set_cpc s c (CSendU sc m i (cache s (m, i)) todo rest)
+  | CSendU sc m i v [] rest =>
+      let s1 := log_add s c (EUpd (m, i) v) in enter_groups (set_ulock s1 (upd (ulock s1) m None)) c sc rest
+  | CSendU sc m i v todo rest => set_cpc (log_add s c (EUpd (m, i) v)) c (CBuild sc m todo rest)
   | CSendR r => set_cpc (log_add s c (ERep r)) c CRecv
   | CDone => s
   end.
@@ -255,7 +274,7 @@ Definition cstep_upd (nd : node) (s : state) (u : nat) (target : conn) : state :
           let s1 := set_cache s (updp (cache s) p v) in
           let s2 := set_uth s1 (upd (uth s1) u {| u_pc := UAcq; u_script := rest |}) in
           if exported nd p
-          then set_upc (set_ulock s2 (upd (ulock s2) (fst p) (Some u))) u (UBuild p)
+          then set_upc (set_ulock s2 (upd (ulock s2) (fst p) (Some (TU u)))) u (UBuild p)
           else next_upd s2 u
       end
   | UBuild p =>
